@@ -317,9 +317,17 @@ package ipfscluster
 //@   ensures [same-cid-same-options] nLogPin == old(nLogPin) + 1 ==> lastLogged.Cid == old(pin.Cid) && optsAsRequested(c, lastLogged.PinOptions, old(pin.PinOptions))
 //@   modifies nLogPin, lastLogged, heap(api.Pin)
 
+//@ ghost var vacateN int
+//@ ghost var rmPeerN int
+//@ ghost var lastRmPeer peer.ID
+//@ interface Consensus.RmPeer(ctx, p)
+//@   ensures rmPeerN == old(rmPeerN) + 1 && lastRmPeer == p
+//@   modifies rmPeerN, lastRmPeer
+
 //@ func (c *Cluster) vacatePeer
 //@   property C10
 //@   requires pinsetInv()
+//@   counts vacateN when true
 //@   ensures [never-unpins] nLogUnpin == old(nLogUnpin)
 //@   ensures [disabled-or-follower-does-nothing] c.config.DisableRepinning || c.config.FollowerMode ==> nLogPin == old(nLogPin)
 //@   loop 1 (range list)
@@ -338,6 +346,16 @@ package ipfscluster
 //@   loop 1 (range clusterPins)
 //@     invariant nLogPin == old(nLogPin) && (c.config.FollowerMode ==> nLogUnpin == old(nLogUnpin))
 //@   modifies nLogUnpin, lastUnlogged
+
+// "PeerRemove re-pins before removing": the peer's pins are vacated (once) before the membership change is submitted
+// (afterwards the removed peer could not submit the re-pins), exactly that peer is removed, and no pin is unpinned
+//@ func (c *Cluster) PeerRemove
+//@   property C10 C17
+//@   requires pinsetInv()
+//@   at_call Consensus.RmPeer assert [vacated-before-removal] vacateN == old(vacateN) + 1 && p == pid
+//@   ensures [one-removal] rmPeerN == old(rmPeerN) + 1 && lastRmPeer == pid && vacateN == old(vacateN) + 1
+//@   ensures [never-unpins] nLogUnpin == old(nLogUnpin)
+//@   modifies vacateN, rmPeerN, lastRmPeer, nLogPin, lastLogged, heap(api.Pin)
 
 // at most one peer considers itself closest: XOR with the CID's hash is injective, so two different peer hashes never tie
 //@ lemma xor_injective: forall a int, b int, k int :: a != b ==> (a ^ k) != (b ^ k)
